@@ -1,6 +1,7 @@
 package main
 
 import (
+	"os"
 	"fmt"
 	"go/types"
 	"sort"
@@ -804,6 +805,19 @@ func (st *State) resolve(a Addr) (root string, path string, idx []Term, dims []S
 
 // derefOK: execution continues past a dereference only if the pointer is not nil (a nil dereference
 // panics and ends the path; nil-dereference freedom itself is not an obligation of this engine).
+// curExec: the executor of the function being verified (functions are verified one at a time).
+var curExec *Exec
+
+// nilDerefOn: generate nil-deref obligations (set for properties that claim crash freedom: "nil_deref" in props.json).
+var nilDerefOn bool
+
+func isCallResultSym(s string) bool {
+	if strings.ContainsAny(s, "( ") {
+		return false
+	}
+	return strings.Contains(s, "_r_")
+}
+
 func (st *State) derefOK(a Addr) {
 	if st.guarded > 0 {
 		return // conditional (guarded) access inside a library model
@@ -818,6 +832,12 @@ func (st *State) derefOK(a Addr) {
 				key := "nn:" + x.Ref.S
 				if st.ghost[key].S == "" {
 					st.ghost[key] = TTrue
+					// a pointer that a call made inside this function handed back is dereferenced: it must be
+					// known to be non-nil here (pointers that come in through parameters and the objects they
+					// reach are the caller's business: assumed)
+					if curExec != nil && specDepth == 0 && (nilDerefOn || os.Getenv("SSOVC_NILDEREF") != "") && isCallResultSym(x.Ref.S) {
+						curExec.emit(st, "nil-deref", "", "a pointer returned by a call is not nil where it is dereferenced: "+x.Ref.S[strings.Index(x.Ref.S, "_r_")+3:], nil, Not(Eq(x.Ref, IntLit(0))))
+					}
 					st.assume(Not(Eq(x.Ref, IntLit(0))))
 				}
 			}
